@@ -6,7 +6,7 @@ apply the patch, run `VERIF_REPO=<wt> ./check <Id> --tier <tier>` (property take
 meta.json 'property', may be a list), expect exit 1 and a VIOLATION line; remove the worktree.
 Writes seeded/RESULTS.json and prints a table.  Usage: tools/seeded.py [--tier quick] [--only C11[/name]] [-j N]
 """
-import argparse, json, os, subprocess, sys, glob, shutil, hashlib, time, fcntl, contextlib
+import fnmatch, argparse, json, os, subprocess, sys, glob, shutil, hashlib, time, fcntl, contextlib
 from concurrent.futures import ThreadPoolExecutor
 V = os.path.dirname(os.path.dirname(os.path.abspath(__file__)))
 
@@ -60,7 +60,7 @@ def main():
     for d in sorted(glob.glob(os.path.join(V, "seeded", "*", "*"))):
         if os.path.exists(os.path.join(d, "patch.diff")):
             pid, name = d.split(os.sep)[-2:]
-            if a.only and not (a.only == pid or a.only == pid + "/" + name): continue
+            if a.only and not (a.only == pid or a.only == pid + "/" + name or fnmatch.fnmatch(pid + "/" + name, a.only)): continue
             items.append((pid, name, d))
     with ThreadPoolExecutor(a.j) as ex:
         results = list(ex.map(lambda it: run_one(it, a.tier), items))
